@@ -138,6 +138,44 @@ func runC01(op string, in []string) string {
 			return wkbOutcome(g2, s2, err)
 		})
 		return hexs + " ; " + um + " ; " + st
+	case "seq":
+		// one Encoder reused for several Encode calls with changing byte order / SRID (via SetSRID or
+		// the per-call argument), then one Decoder reading the values back from the stream
+		return guard(func() string {
+			n := r.int()
+			var buf bytes.Buffer
+			enc := ewkb.NewEncoder(&buf)
+			want := 0
+			for i := 0; i < n; i++ {
+				o := order(r.next())
+				srid := r.int()
+				how := r.next()
+				g := r.geom()
+				enc.SetByteOrder(o)
+				var err error
+				if how == "set" {
+					enc.SetSRID(srid)
+					err = enc.Encode(g)
+				} else {
+					err = enc.Encode(g, srid)
+				}
+				if err != nil {
+					return "err encode"
+				}
+				want++
+			}
+			data := buf.Bytes()
+			out := []string{hexOrEmpty(data)}
+			dec := ewkb.NewDecoder(bytes.NewReader(data))
+			for i := 0; i < want+1; i++ {
+				g2, s2, err := dec.Decode()
+				out = append(out, wkbOutcome(g2, s2, err))
+				if err != nil {
+					break
+				}
+			}
+			return strings.Join(out, " ; ")
+		})
 	case "sc":
 		return guard(func() string {
 			o := order(r.next())
@@ -284,6 +322,16 @@ func genC01(c *Ctx) {
 		opt.TopNil = false
 		g2 := genForDest(c, opt, d)
 		c.Case("sc", fmt.Sprintf("%d %d %s %s %d %s", r.Intn(2), genSrid(c), d, fr, genSrid(c), gs(g2)))
+		if k%3 == 0 { // encoder / decoder reuse over a stream of values
+			n := 1 + r.Intn(4)
+			parts := []string{fmt.Sprint(n)}
+			for i := 0; i < n; i++ {
+				o2 := opt
+				o2.TopNil = r.Intn(4) == 0
+				parts = append(parts, fmt.Sprintf("%d %d %s %s", r.Intn(2), genSrid(c), []string{"set", "arg"}[r.Intn(2)], gs(genGeom(r, o2, 0))))
+			}
+			c.Case("seq", strings.Join(parts, " "))
+		}
 		// deprecated wkb.Scanner incl. its MySQL prefix retry; prefix bytes uniform so the ambiguous class is hit
 		fr2 := c01Framings[r.Intn(len(c01Framings))]
 		ps := r.Uint32()
